@@ -2,6 +2,7 @@
 package c07
 
 import (
+	"math"
 	"context"
 	"errors"
 	"fmt"
@@ -796,6 +797,7 @@ func jsonCase(c *h.Case, k int) {
 	tree := map[string]interface{}{"name": "t", "kids": []interface{}{map[string]interface{}{"name": "k"}}}
 	ms := []jm{
 		{"OneInt", []interface{}{rng.Intn(1000) - 500}},
+		{"OneInt", []interface{}{[]int{1<<53 + 1, 1<<60 + 1, math.MaxInt64, math.MinInt64 + 1, -(1<<53 + 1), 1 << 53}[rng.Intn(6)]}},
 		{"TwoInts", []interface{}{rng.Intn(100), rng.Intn(100)}},
 		{"Str", []interface{}{[]string{"", "a", "json \"string\"", "中文😀", "line\nbreak"}[rng.Intn(5)]}},
 		{"Bool", []interface{}{rng.Intn(2) == 0}},
@@ -875,6 +877,8 @@ func jsonCase(c *h.Case, k int) {
 	}{
 		{"result string", []reflect.Type{gen.TString}, ""},
 		{42, []reflect.Type{gen.TInt}, ""},
+		{[]int64{1<<53 + 1, 1<<60 + 1, math.MaxInt64, math.MinInt64 + 1}[rng.Intn(4)], []reflect.Type{reflect.TypeOf(int64(0))}, ""},
+		{[]interface{}{int64(1<<60 + 1), "two"}, []reflect.Type{reflect.TypeOf(int64(0)), gen.TString}, ""},
 		{[]interface{}{1, "two"}, []reflect.Type{gen.TInt, gen.TString}, ""},
 		{map[string]interface{}{"a": 1.5}, []reflect.Type{reflect.TypeOf(map[string]interface{}(nil))}, ""},
 		{gentypes.Scalars{I: 3, S: "x"}, []reflect.Type{reflect.TypeOf(gentypes.Scalars{})}, ""},
